@@ -28,6 +28,9 @@ def fill_in_map(circuit):
 
 
 class MapFiller(Visitor):
+    # Names of the parameters of the macro being visited
+    macro_parameters = ()
+
     ##
     # Visitor Methods
     #
@@ -89,6 +92,11 @@ class MapFiller(Visitor):
     def visit_NamedQubit(self, qubit):
         """Map this to a fundamental register and index and return it."""
         reg, index = qubit.resolve_qubit()
+        if reg.name in self.macro_parameters:
+            # Inside this macro the register's name means the parameter
+            raise JaqalError(
+                f"Cannot fill in map aliases: a macro parameter is named like register {reg.name}"
+            )
         return reg[index]
 
     def visit_Register(self, reg):
@@ -113,7 +121,11 @@ class MapFiller(Visitor):
         qubits which have type NamedQubit, so they are easily differentiated
         (unlike at the Jaqal level where they are both text identifiers).
         """
-        gate_block = self.visit(macro.body)
+        self.macro_parameters = [param.name for param in macro.parameters]
+        try:
+            gate_block = self.visit(macro.body)
+        finally:
+            self.macro_parameters = ()
         sexpr = [
             "macro",
             macro.name,
